@@ -4,11 +4,16 @@
 EXTENDS PageStore, Json, IOUtils
 
 (* ---------------- atom tables of the bounded universe ---------------- *)
-T_PfxNs == ("Template:" :> 10) @@ ("template:" :> 10) @@ ("TEMPLATE:" :> 10) @@
+T_PfxNsV == ("Template:" :> 10) @@ ("template:" :> 10) @@ ("TEMPLATE:" :> 10) @@
            ("T:" :> 10) @@ ("t:" :> 10) @@
            ("Module:" :> 828) @@ ("module:" :> 828) @@ ("MOD:" :> 828) @@ ("mod:" :> 828)
-T_CanonPfx == ("10" :> "Template:") @@ ("828" :> "Module:")
-T_UpperOf == ("f" :> "F") @@ ("F" :> "F") @@ ("z" :> "Z") @@ ("Z" :> "Z")
+T_CanonPfxV == ("10" :> "Template:") @@ ("828" :> "Module:")
+T_UpperOfV == ("f" :> "F") @@ ("F" :> "F") @@ ("z" :> "Z") @@ ("Z" :> "Z")
+\* (a bare reference: TLC re-evaluates the body of a definition substituted for a CONSTANT at every
+\* reference of the constant, and only picks up its cached value of a definition referenced directly)
+T_PfxNs == T_PfxNsV
+T_CanonPfx == T_CanonPfxV
+T_UpperOf == T_UpperOfV
 DevIdeal == {}
 DevMemo == {"MemoNotInvalidatedOnAdd"}
 DevMain == {"MainPrefixStrippedOnAdd"}
@@ -134,13 +139,14 @@ IsRedirectOf(tgt, ns, b) ==
   IF "table" \in LookupPfx THEN SiteIsRedirectOf(tgt, ns, b, S_Tab, CanonPfx)
   ELSE tgt \in RedirectTargets(ns) /\ tgt # Stored(ns, b)
 
-ArgSet ==
+ArgSetV ==
   IF "table" \in LookupPfx THEN SiteArgSet(Namespaces, PfxNs, CanonPfx)
   ELSE {Args(t, ns, nr) : t \in UNION {LookupSpellings(n) : n \in Namespaces}, ns \in Namespaces, nr \in NrSet}
        \cup (IF WithNoNs
              THEN {Args(t, NoNs, nr) : t \in UNION {{b, Stored(n, b)} : n \in Namespaces, b \in LookupBases},
                                        nr \in NrSet}
              ELSE {})
+ArgSet == ArgSetV    \* (bare reference: the cfgs substitute ArgSet for ArgU, see T_PfxNs)
 
 (* ---------------- exhaustive, history-free exploration ---------------- *)
 DoAdd ==
